@@ -24,8 +24,10 @@ def run(ctx):
     core.check_theorems(ctx, "theories/Props/C01.v", "Props.C01")
     ov = core.write_overlay(ctx, {"internal/target/queue/zz_verif_c01_test.go": "harness/c01/c01_test.go",
                                   "internal/target/queue/zz_verif_export.go": "harness/queue/export.go",
-                                  "internal/target/remote/zz_verif_c01i_test.go": "harness/c01/c01_integ_test.go"},
-                            {"internal/target/queue": "queue", "internal/target/remote": "remote"})
+                                  "internal/target/remote/zz_verif_c01i_test.go": "harness/c01/c01_integ_test.go",
+                                  "internal/target/smtp/zz_verif_c01d_test.go": "harness/c01/c01_smtp_test.go"},
+                            {"internal/target/queue": "queue", "internal/target/remote": "remote",
+                             "internal/target/smtp": "smtp_downstream"})
     n = 400 if ctx.tier == "quick" else 12000
     core.generic_corr(ctx, overlay=ov, pkg="internal/target/queue", run="TestVerif_C01", n=n,
                       corr_module="Queue.Corr", clause_names=CLAUSES, name="queue", shard=600)
@@ -36,6 +38,9 @@ def run(ctx):
     core.generic_corr(ctx, overlay=ov, pkg="internal/target/remote", run="TestVerif_C01Integ",
                       n=(60 if ctx.tier == "quick" else 1500),
                       corr_module="Queue.IntegCorr", clause_names=I_CLAUSES, name="integration")
+    core.generic_corr(ctx, overlay=ov, pkg="internal/target/smtp", run="TestVerif_C01Smtp",
+                      n=(12 if ctx.tier == "quick" else 120),
+                      corr_module="Queue.IntegCorr", clause_names=I_CLAUSES, name="integration_downstream")
     ctx.coverage["rule"] = ("exhaustive single-recipient sweep (stage x failure class x atomic/per-recipient x max_tries 1-3) plus generated "
                             "messages with 1-5 recipients (ASCII, IDN, non-ASCII local part, case variant, duplicates), max_tries 1-3, "
                             "with/without bounce pipeline, null sender, one fault plan per attempt (start/rcpt/body/status/commit x temp/perm/"
